@@ -22,7 +22,11 @@ Theorem c15_source_shape :
   connection_connection_error_ok = true /\ connection_connection_text_resultset_ok = true /\ connection_connection_handle_init_db_ok = true /\
   packets_parse_handshake_response_41_ok = true /\ packets_parse_com_change_user_ok = true /\ packets_parse_com_init_db_ok = true /\
   packets_parse_com_field_list_ok = true /\ packets_make_error_ok = true /\ packets_make_handshake_v10_ok = true /\
-  packets_make_auth_switch_request_ok = true /\ packets_read_param_value_ok = true /\
+  packets_make_auth_switch_request_ok = true /\ packets_read_param_value_ok = true /\ packets_parse_com_stmt_execute_ok = true /\
+  packets_interpolate_params_ok = true /\ packets_read_params_ok = true /\ packets_parse_com_query_ok = true /\
+  packets_parse_com_stmt_send_long_data_ok = true /\ connection_connection_handle_stmt_prepare_ok = true /\
+  connection_connection_handle_stmt_execute_ok = true /\ connection_connection_handle_field_list_ok = true /\
+  prepared_preparedstatement_class_ok = true /\
   session_session_set_names_ok = true /\ session_session_set_charset_ok = true /\ session_session_set_middleware_ok = true.
 Proof. repeat split; reflexivity. Qed.
 
